@@ -416,6 +416,28 @@ def _run_parser(kind, data):
     return plist(out)
 
 
+def _norm_key(topic, text):
+    """own reading of a returned record's prefix/address text -> 'lo-hi' (identity of the record
+    at the level the property speaks: its published block or range)"""
+    try:
+        text = str(text).strip()
+        if topic == 'IPv4':
+            octet, plen = text.split('/')
+            size = 1 << (32 - int(plen))
+            lo = ((int(octet) << 24) // size) * size
+            return '%d-%d' % (lo, lo + size - 1)
+        if topic in ('IPv6', 'IPv6_unicast'):
+            n = ipaddress.IPv6Network(text, strict=False)
+            return '%d-%d' % (int(n.network_address), int(n.broadcast_address))
+        if '-' in text:
+            x, y = text.split('-')
+            return '%d-%d' % (_quad(x)[0], _quad(y)[0])
+        v = _quad(text)[0]
+        return '%d-%d' % (v, v)
+    except Exception:
+        return 'unreadable:' + str(text)
+
+
 def _idmaps():
     if 'idmaps' in _D:
         return _D['idmaps']
@@ -442,7 +464,7 @@ def impl(c):
             recs = info[topic] or []
             ks = [str(r[UKEY[topic]]) for r in recs]
             ids.append(plist([str(i) for i in sorted(maps[topic].get(k, -1) for k in ks)]))
-            keys.append(','.join(sorted(ks)))
+            keys.append(','.join(sorted(_norm_key(topic, k) for k in ks)))
         return ';'.join(ids) + '#' + ';'.join(keys)
     if a[0] == 'index':
         _, kind, header, recs = a
@@ -492,14 +514,14 @@ def oracle(c, got):
             if tv != ver or (topic == 'Multicast' and not (MC_LO <= v <= MC_HI)):
                 exp.append('')
                 continue
-            exp.append(','.join(sorted(k for lo, hi, k in T[topic] if lo <= v <= hi)))
+            exp.append(','.join(sorted('%d-%d' % (lo, hi) for lo, hi, k in T[topic] if lo <= v <= hi)))
         exp = ';'.join(exp)
         if '#' not in got:
             return '.info failed: %s' % got
         have = got.split('#', 1)[1]
         if have != exp:
-            return '.info of %s returned records {%s}, the registry files give {%s}' % (
-                ipaddress.ip_address(v) if ver == 6 or v > M4 else ipaddress.IPv4Address(v), have, exp)
+            return '.info of %s returned the records with ranges {%s} (IPv4;IPv6;IPv6_unicast;Multicast), the registry files give {%s}' % (
+                ipaddress.IPv6Address(v) if ver == 6 else ipaddress.IPv4Address(v), have, exp)
         return None
     if a[0] == 'index':
         _, kind, header, recs = a
